@@ -29,7 +29,14 @@ from .values import (
     array_index,
     to_boolean,
 )
-from .errors import JSError, JSRangeError, JSTypeError, MemoryLimitError, TimeLimitError
+from .errors import (
+    JSError,
+    JSRangeError,
+    JSSyntaxError,
+    JSTypeError,
+    MemoryLimitError,
+    TimeLimitError,
+)
 
 
 # Largest array / typed array (elements) and buffer / string (bytes, characters) a script may
@@ -1198,13 +1205,17 @@ class Context:
             MemoryLimitError: If memory limit is exceeded
             TimeLimitError: If time limit is exceeded
         """
-        # Parse the code
-        parser = Parser(code)
-        ast = parser.parse()
+        try:
+            # Parse the code
+            parser = Parser(code)
+            ast = parser.parse()
 
-        # Compile to bytecode
-        compiler = Compiler()
-        compiled = compiler.compile(ast)
+            # Compile to bytecode
+            compiler = Compiler()
+            compiled = compiler.compile(ast)
+        except RecursionError:
+            # The parser and the compiler recurse on nesting (see README: deep nesting limits)
+            raise JSSyntaxError("Program is nested too deeply", 1, 1)
 
         # Execute
         vm = VM(memory_limit=self.memory_limit, time_limit=self.time_limit)
